@@ -60,7 +60,8 @@ impl DiskCacheEntry {
             file_path,
             size_bytes,
             created_at: now,
-            expires_at: ttl.map(|t| now + t),
+            // A TTL too large to be added to the clock (Duration::MAX) never expires
+            expires_at: ttl.and_then(|t| now.checked_add(t)),
             last_accessed: now,
             access_count: 1,
         }
